@@ -4,26 +4,22 @@ From Morfuse Require Import Base.ListX C15.Model C15.Spec C15.ProofsLib.
 Import ListNotations.
 Local Open Scope N_scope.
 
-Inductive vrel : value -> sval -> Prop :=
-| vrel_null : vrel VNull SNull
-| vrel_obj k : vrel (VObj k) (SObj k)
-| vrel_grp e l : vrel (VGrp e) (SArr l).
-
 (* the simulation relation *)
 Record R (m : st) (a : abs) : Prop := mkR {
-  r_stuck : stuck m = false;
   r_next : nextid m = snext a;
   r_tab : forall n, mem_of (tab m) n = lookup n (sobjs a);
   r_names : forall k, find_name (objs m) k = find_name (sobjs a) k;
   r_unnamed : unnamed (objs m) = unnamed (sobjs a);
-  r_caps : forall j, vrel (getc VNull (caps m) j) (getc SNull (scaps a) j);
+  r_caps : caps m = scaps a;
+  r_big : forall j l, getc VNull (scaps a) j = VArr l -> exists x y l', l = x :: y :: l';
   r_nodup : NoDup (map fst (sobjs a));
   r_bound : forall k, In k (map fst (sobjs a)) -> k < snext a }.
 
 Lemma R_init : R init abs_init.
 Proof.
   constructor; cbn; try reflexivity; try (intros; constructor); try tauto.
-  intro n. unfold lookup. now destruct (n =? 0).
+  - intro n. unfold lookup. now destruct (n =? 0).
+  - intros j l E. discriminate.
 Qed.
 
 Lemma R_dump m a : R m a -> dump m = s_dump a.
@@ -43,11 +39,10 @@ Proof.
   assert (find_name (sobjs a) k = Some old) as Hfa by (now rewrite <- (r_names m a H)).
   pose proof (norm_nz n) as Hnn. pose proof (r_nodup m a H) as Hnd.
   set (m1 := remove_listener m k (norm old)).
-  destruct (remove_listener_rest m k (norm old)) as [Ho1 [Hn1 [Hc1 Hs1]]]. fold m1 in Ho1, Hn1, Hc1, Hs1.
+  destruct (remove_listener_rest m k (norm old)) as [Ho1 [Hn1 Hc1]]. fold m1 in Ho1, Hn1, Hc1.
   set (m2 := with_objs m1 (rename_in k (norm n) (objs m1))).
-  destruct (add_listener_rest m2 k (norm n)) as [Ho3 [Hn3 [Hc3 Hs3]]].
+  destruct (add_listener_rest m2 k (norm n)) as [Ho3 [Hn3 Hc3]].
   constructor; cbn [sobjs snext scaps s_with].
-  - rewrite Hs3. cbn. rewrite Hs1. exact (r_stuck m a H).
   - rewrite Hn3. cbn. rewrite Hn1. exact (r_next m a H).
   - intro n'. rewrite add_listener_mem by exact Hnn. cbn [tab m2 with_objs].
     unfold m1. rewrite remove_listener_mem. rewrite (r_tab m a H).
@@ -78,7 +73,8 @@ Proof.
     rewrite unnamed_app, unnamed_without, unnamed_rename by exact Hnn.
     destruct (N.eqb_spec (norm n) 0); [contradiction|]. rewrite app_nil_r.
     now rewrite (r_unnamed m a H).
-  - intro j. rewrite Hc3. cbn [caps m2 with_objs]. rewrite Hc1. exact (r_caps m a H j).
+  - rewrite Hc3. cbn [caps m2 with_objs]. rewrite Hc1. exact (r_caps m a H).
+  - exact (r_big m a H).
   - rewrite map_app, ids_without. cbn [map fst].
     apply nodup_app_intro.
     + now apply rm_nodup.
@@ -98,9 +94,8 @@ Proof.
   destruct (find_name (objs m) k) as [old|] eqn:Hf.
   - assert (find_name (sobjs a) k = Some old) as Hfa by (now rewrite <- (r_names m a H)).
     set (m1 := remove_listener m k (norm old)).
-    destruct (remove_listener_rest m k (norm old)) as [Ho1 [Hn1 [Hc1 Hs1]]]. fold m1 in Ho1, Hn1, Hc1, Hs1.
-    constructor; cbn [sobjs snext scaps s_with stuck nextid tab objs caps with_objs].
-    + rewrite Hs1. exact (r_stuck m a H).
+    destruct (remove_listener_rest m k (norm old)) as [Ho1 [Hn1 Hc1]]. fold m1 in Ho1, Hn1, Hc1.
+    constructor; cbn [sobjs snext scaps s_with nextid tab objs caps with_objs].
     + rewrite Hn1. exact (r_next m a H).
     + intro n'. unfold m1. rewrite remove_listener_mem, (r_tab m a H), lookup_without.
       destruct (N.eqb_spec n' (norm old)) as [E|E]; cbn [andb].
@@ -115,7 +110,8 @@ Proof.
       * subst k'. now rewrite !find_name_without_same.
       * rewrite !find_name_without_other by exact E. exact (r_names m a H k').
     + rewrite Ho1, !unnamed_without. now rewrite (r_unnamed m a H).
-    + intro j. rewrite Hc1. exact (r_caps m a H j).
+    + rewrite Hc1. exact (r_caps m a H).
+    + exact (r_big m a H).
     + rewrite ids_without. now apply rm_nodup.
     + intros k' Hin. rewrite ids_without in Hin. apply (r_bound m a H). eapply rm_in; eauto.
   - (* already dead: nothing happens on either side *)
@@ -130,13 +126,12 @@ Qed.
 Lemma spawn_R m a n : R m a -> R (spawn m n) (s_spawn a n).
 Proof.
   intro H. unfold spawn.
-  set (m1 := mkSt (tab m) (objs m ++ [(nextid m, 0)]) (nextid m + 1) (nexteid m) (caps m) (stuck m)).
+  set (m1 := mkSt (tab m) (objs m ++ [(nextid m, 0)]) (nextid m + 1) (caps m)).
   pose proof (r_next m a H) as Hnx.
   assert (~ In (snext a) (map fst (sobjs a))) as Hfresh.
   { intro Hin. apply (r_bound m a H) in Hin. lia. }
   assert (R m1 (s_spawn a 0)) as H1.
-  { unfold s_spawn. cbn [N.eqb]. constructor; cbn [sobjs snext scaps stuck nextid tab objs caps m1].
-    - exact (r_stuck m a H).
+  { unfold s_spawn. cbn [N.eqb]. constructor; cbn [sobjs snext scaps nextid tab objs caps m1].
     - now rewrite Hnx.
     - intro n'. rewrite lookup_app.
       replace ((0 =? n') && negb (n' =? 0)) with false.
@@ -145,6 +140,7 @@ Proof.
     - intro k'. rewrite !find_name_app, (r_names m a H), Hnx. reflexivity.
     - rewrite !unnamed_app, (r_unnamed m a H), Hnx. reflexivity.
     - exact (r_caps m a H).
+    - exact (r_big m a H).
     - rewrite map_app. cbn [map fst]. apply nodup_app_intro.
       + exact (r_nodup m a H).
       + constructor; [tauto|constructor].
@@ -164,7 +160,7 @@ Proof.
     now rewrite app_nil_r.
 Qed.
 
-(* ---- handlers and the fan-out *)
+(* ---- handlers and the fan-outs *)
 Lemma apply_sim m a k c log :
   R m a -> R (fst (apply m k c log)) (fst (s_apply a k c log)) /\
            snd (apply m k c log) = snd (s_apply a k c log).
@@ -189,234 +185,145 @@ Proof.
     + now apply IH.
 Qed.
 
+Lemma fstore_sim m a k f log :
+  R m a -> R (fst (fst (fstore m k f log))) (fst (fst (s_fstore a k f log))) /\
+           snd (fst (fstore m k f log)) = snd (fst (s_fstore a k f log)) /\
+           snd (fstore m k f log) = snd (s_fstore a k f log).
+Proof.
+  intro H. destruct f as [|n|j|j]; cbn.
+  - split; [exact H|split; reflexivity].
+  - split; [now apply set_name_R|split; reflexivity].
+  - split; [exact H|split; reflexivity].
+  - split; [now apply destroy_R|split; reflexivity].
+Qed.
+
+Lemma ffanout_sim snap : forall m a f log,
+  R m a -> R (fst (fst (ffanout m snap f log))) (fst (fst (s_ffanout a snap f log))) /\
+           snd (fst (ffanout m snap f log)) = snd (fst (s_ffanout a snap f log)) /\
+           snd (ffanout m snap f log) = snd (s_ffanout a snap f log).
+Proof.
+  induction snap as [|k r IH]; intros m a f log H; cbn [ffanout s_ffanout].
+  - split; [exact H|split; reflexivity].
+  - rewrite <- (R_alive m a k H). destruct (alive_in (objs m) k).
+    + destruct (fstore_sim m a k f log H) as [HR [Hl He]].
+      destruct (fstore m k f log) as [[m' lg] e]. destruct (s_fstore a k f log) as [[a' lg'] e'].
+      cbn in HR, Hl, He. subst lg' e'. destruct e.
+      * cbn. split; [exact HR|split; reflexivity].
+      * now apply IH.
+    + now apply IH.
+Qed.
+
 (* ---- evaluation of a target *)
-Lemma resolve_sim m a t :
-  R m a ->
-  snd (resolve m t) = snd (s_resolve a t) /\
-  snd (fst (resolve m t)) = snd (fst (s_resolve a t)) /\
-  (snd (resolve m t) = false -> fst (fst (resolve m t)) = fst (fst (s_resolve a t))).
+Lemma look_eq o o' v : (forall k, alive_in o k = alive_in o' k) -> look o v = look o' v.
 Proof.
-  intro H. destruct t as [n|j]; cbn [resolve s_resolve].
-  - rewrite (r_tab m a H). destruct (rval_of_list (lookup n (sobjs a))). cbn. tauto.
-  - pose proof (r_caps m a H j) as Hv. inversion Hv as [Hm Ha|k Hm Ha|e l Hm Ha]; cbn.
-    + tauto.
-    + rewrite (R_alive m a k H). tauto.
-    + destruct (find_eid (tab m) e); cbn; repeat split; intro; discriminate.
+  intro H. destruct v as [|k|l]; cbn; [reflexivity|now rewrite H|].
+  f_equal. apply map_ext. intro k. now rewrite H.
 Qed.
 
-Lemma eval_name_sim m a n :
-  R m a -> vrel (fst (eval_name m n)) (fst (s_eval_name a n)) /\
-           snd (eval_name m n) = snd (s_eval_name a n).
+Lemma eval_name_sim m a n : R m a -> eval_name m n = s_eval_name a n.
+Proof. intro H. unfold eval_name, s_eval_name. now rewrite (r_tab m a H). Qed.
+
+Lemma value_of_list_big l0 l : fst (value_of_list l0) = VArr l -> exists x y l', l = x :: y :: l'.
 Proof.
-  intro H. unfold eval_name, s_eval_name. pose proof (r_tab m a H n) as Ht. unfold mem_of in Ht.
-  destruct (find_entry (tab m) n) as [e|]; rewrite <- Ht.
-  - destruct (emem e) as [|x [|y r]]; cbn; split; try reflexivity; constructor.
-  - cbn. split; [constructor|reflexivity].
+  destruct l0 as [|x [|y l']]; cbn; intro E; try discriminate. inversion E. eauto.
 Qed.
 
-Lemma resolve_cases m a t :
-  R m a ->
-  (exists r w, resolve m t = (r, w, false) /\ s_resolve a t = (r, w, false) /\ r <> RDangling /\
-               (forall l, r = RGrp l -> exists x y l', l = x :: y :: l')) \/
-  (exists r r' w, resolve m t = (r, w, true) /\ s_resolve a t = (r', w, true)).
+Lemma resolve_sim m a t : R m a -> resolve m t = s_resolve a t.
 Proof.
   intro H. destruct t as [n|j]; cbn [resolve s_resolve].
-  - left. rewrite (r_tab m a H).
-    destruct (lookup n (sobjs a)) as [|x [|y l]]; cbn; eexists; eexists;
-      (split; [reflexivity|split; [reflexivity|split; [discriminate|]]]); intros l0 E; try discriminate.
-    inversion E. eauto.
-  - pose proof (r_caps m a H j) as Hv. inversion Hv as [Hm Ha|k Hm Ha|e l Hm Ha].
-    + left. eexists; eexists. split; [reflexivity|split; [reflexivity|split; [discriminate|]]].
-      intros l0 E; discriminate.
-    + left. rewrite (R_alive m a k H). destruct (alive_in (sobjs a) k);
-        eexists; eexists; (split; [reflexivity|split; [reflexivity|split; [discriminate|]]]);
-        intros l0 E; discriminate.
-    + right. destruct (find_eid (tab m) e); eexists; eexists; eexists; split; reflexivity.
+  - rewrite (eval_name_sim m a n H). destruct (s_eval_name a n) as [v w].
+    now rewrite (look_eq _ (sobjs a) v (fun k => R_alive m a k H)).
+  - rewrite (r_caps m a H). now rewrite (look_eq _ (sobjs a) _ (fun k => R_alive m a k H)).
+Qed.
+
+(* a group that comes out of a target has at least two elements *)
+Lemma s_resolve_big a t l :
+  (forall j l, getc VNull (scaps a) j = VArr l -> exists x y l', l = x :: y :: l') ->
+  fst (s_resolve a t) = RGrp l -> exists x y l', l = x :: y :: l'.
+Proof.
+  intros Hbig E.
+  assert (forall v, (forall l0, v = VArr l0 -> exists x y l', l0 = x :: y :: l') ->
+          look (sobjs a) v = RGrp l -> exists x y l', l = x :: y :: l') as Hlook.
+  { intros v Hv El. destruct v as [|k|l0]; cbn in El.
+    - discriminate.
+    - destruct (alive_in (sobjs a) k); discriminate.
+    - destruct (Hv l0 eq_refl) as [x [y [l' E0]]]. subst l0. inversion El. cbn. eauto. }
+  destruct t as [n|j]; cbn [s_resolve] in E.
+  - unfold s_eval_name in E.
+    pose proof (value_of_list_big (lookup n (sobjs a))) as Hb.
+    destruct (value_of_list (lookup n (sobjs a))) as [v w]. cbn in E, Hb.
+    apply (Hlook v); [intros l0 E0; now apply Hb|exact E].
+  - cbn in E. apply (Hlook (getc VNull (scaps a) j)); [intros l0 E0; now apply (Hbig j)|exact E].
 Qed.
 
 (* ---- one step *)
-Definition step_ok (m : st) (a : abs) (o : op) : Prop :=
-  (oflag (snd (step m o)) = 0 /\ snd (step m o) = snd (spec_step a o) /\
-   R (fst (step m o)) (fst (spec_step a o))) \/
-  (oflag (snd (step m o)) = 1 /\ oflag (snd (spec_step a o)) = 1 /\
-   R (fst (step m o)) (fst (spec_step a o))) \/
-  (oflag (snd (step m o)) = 2 /\ oflag (snd (spec_step a o)) = 2).
-
 Ltac same_obs H :=
-  left; cbn [fst snd mk s_mk oflag]; split; [reflexivity|split; [rewrite (R_dump _ _ H); reflexivity|exact H]].
+  cbn [fst snd mk s_mk]; split; [rewrite (R_dump _ _ H); reflexivity|exact H].
 
-Lemma step_sim m a o : R m a -> step_ok m a o.
+Lemma step_sim m a o :
+  R m a -> snd (step m o) = snd (spec_step a o) /\ R (fst (step m o)) (fst (spec_step a o)).
 Proof.
-  intro H. unfold step_ok, step. rewrite (r_stuck m a H).
-  destruct o as [n|k n|k|t|t|t i|t c|t|j n]; cbn [spec_step].
-  - (* spawn *)
-    pose proof (spawn_R m a n H) as H'. same_obs H'.
-  - (* rename *)
-    rewrite <- (R_alive m a k H). destruct (alive_in (objs m) k).
+  intro H. unfold step.
+  destruct o as [n|k n|k|t|t|t i|t c|t f|j n]; cbn [spec_step].
+  - pose proof (spawn_R m a n H) as H'. same_obs H'.
+  - rewrite <- (R_alive m a k H). destruct (alive_in (objs m) k).
     + pose proof (set_name_R m a k n H) as H'. same_obs H'.
     + same_obs H.
-  - (* destroy *)
-    rewrite <- (R_alive m a k H). destruct (alive_in (objs m) k).
+  - rewrite <- (R_alive m a k H). destruct (alive_in (objs m) k).
     + pose proof (destroy_R m a k H) as H'. same_obs H'.
     + same_obs H.
-  - (* query *)
-    destruct (resolve_cases m a t H) as [[r [w [E1 [E2 [Hnd _]]]]]|[r [r' [w [E1 E2]]]]]; rewrite E1, E2.
-    + destruct r; try contradiction; same_obs H.
-    + right. right. destruct r; cbn; tauto.
-  - (* size *)
-    destruct (resolve_cases m a t H) as [[r [w [E1 [E2 [Hnd _]]]]]|[r [r' [w [E1 E2]]]]]; rewrite E1, E2.
-    + destruct r; try contradiction; same_obs H.
-    + right. right. destruct r; cbn; tauto.
-  - (* index *)
-    destruct (resolve_cases m a t H) as [[r [w [E1 [E2 [Hnd _]]]]]|[r [r' [w [E1 E2]]]]]; rewrite E1, E2.
-    + destruct r; try contradiction; destruct (q_index _ i); same_obs H.
-    + right. right. destruct (q_index r' i). destruct r; try destruct (q_index _ i); cbn; tauto.
+  - rewrite (resolve_sim m a t H). destruct (s_resolve a t) as [r w]. same_obs H.
+  - rewrite (resolve_sim m a t H). destruct (s_resolve a t) as [r w]. same_obs H.
+  - rewrite (resolve_sim m a t H). destruct (s_resolve a t) as [r w].
+    destruct (q_index r i). same_obs H.
   - (* command *)
-    destruct (resolve_cases m a t H) as [[r [w [E1 [E2 [Hnd Hg]]]]]|[r [r' [w [E1 E2]]]]]; rewrite E1, E2.
-    + destruct r as [|k|l|]; try contradiction.
-      * same_obs H.
-      * destruct (apply_sim m a k c [] H) as [HR Hl].
-        destruct (apply m k c []) as [m' lg]. destruct (s_apply a k c []) as [a' lg'].
-        cbn in HR, Hl. subst lg'. same_obs HR.
-      * destruct (Hg l eq_refl) as [x [y [l' El]]]. subst l.
-        destruct (fanout_sim (x :: y :: l') m a c [] H) as [HR Hl].
-        destruct (fanout m (x :: y :: l') c []) as [m' lg].
-        destruct (s_fanout a (x :: y :: l') c []) as [a' lg'].
-        cbn in HR, Hl. subst lg'. same_obs HR.
-    + right. right. split.
-      * destruct r as [|k|l|]; [reflexivity| | |reflexivity].
-        -- destruct (apply m k c []). reflexivity.
-        -- destruct l as [|x [|y l']]; [reflexivity|reflexivity|].
-           destruct (fanout m (x :: y :: l') c []). reflexivity.
-      * destruct r' as [|k|l|]; [reflexivity| | |reflexivity].
-        -- destruct (s_apply a k c []). reflexivity.
-        -- destruct (s_fanout a l c []). reflexivity.
+    rewrite (resolve_sim m a t H).
+    pose proof (s_resolve_big a t) as Hbig.
+    destruct (s_resolve a t) as [r w]. cbn [fst] in Hbig.
+    destruct r as [|k|l].
+    + same_obs H.
+    + destruct (apply_sim m a k c [] H) as [HR Hl].
+      destruct (apply m k c []) as [m' lg]. destruct (s_apply a k c []) as [a' lg'].
+      cbn in HR, Hl. subst lg'. same_obs HR.
+    + destruct (Hbig l (r_big m a H) eq_refl) as [x [y [l' El]]]. subst l.
+      destruct (fanout_sim (x :: y :: l') m a c [] H) as [HR Hl].
+      destruct (fanout m (x :: y :: l') c []) as [m' lg].
+      destruct (s_fanout a (x :: y :: l') c []) as [a' lg'].
+      cbn in HR, Hl. subst lg'. same_obs HR.
   - (* field assignment *)
-    destruct (resolve_cases m a t H) as [[r [w [E1 [E2 [Hnd Hg]]]]]|[r [r' [w [E1 E2]]]]]; rewrite E1, E2.
-    + destruct r as [|k|l|]; try contradiction.
-      * same_obs H.
-      * same_obs H.
-      * right. left. cbn. tauto.
-    + right. right. destruct r, r'; cbn; tauto.
+    rewrite (resolve_sim m a t H).
+    pose proof (s_resolve_big a t) as Hbig.
+    destruct (s_resolve a t) as [r w]. cbn [fst] in Hbig.
+    destruct r as [|k|l].
+    + same_obs H.
+    + destruct (fstore_sim m a k f [] H) as [HR [Hl He]].
+      destruct (fstore m k f []) as [[m' lg] e]. destruct (s_fstore a k f []) as [[a' lg'] e'].
+      cbn in HR, Hl, He. subst lg' e'. same_obs HR.
+    + destruct (Hbig l (r_big m a H) eq_refl) as [x [y [l' El]]]. subst l.
+      destruct (ffanout_sim (x :: y :: l') m a f [] H) as [HR [Hl He]].
+      destruct (ffanout m (x :: y :: l') f []) as [[m' lg] e].
+      destruct (s_ffanout a (x :: y :: l') f []) as [[a' lg'] e'].
+      cbn in HR, Hl, He. subst lg' e'. same_obs HR.
   - (* capture *)
-    destruct (eval_name_sim m a n H) as [Hv Hw].
-    destruct (eval_name m n) as [v w]. destruct (s_eval_name a n) as [v' w'].
-    cbn in Hv, Hw. subst w'.
-    assert (R (mkSt (tab m) (objs m) (nextid m) (nexteid m) ((j, v) :: caps m) false)
-              (mkAbs (sobjs a) (snext a) ((j, v') :: scaps a))) as H'.
-    { destruct H. constructor; cbn; try assumption; try reflexivity.
-      intro j'. rewrite !getc_cons. destruct (j =? j'); [exact Hv|apply r_caps0]. }
+    rewrite (eval_name_sim m a n H).
+    pose proof (value_of_list_big (lookup n (sobjs a))) as Hb. fold (s_eval_name a n) in Hb.
+    destruct (s_eval_name a n) as [v w]. cbn [fst] in Hb.
+    assert (R (mkSt (tab m) (objs m) (nextid m) ((j, v) :: caps m))
+              (mkAbs (sobjs a) (snext a) ((j, v) :: scaps a))) as H'.
+    { destruct H. constructor; cbn [sobjs snext scaps nextid tab objs caps]; try assumption.
+      - now f_equal.
+      - intros j' l. rewrite getc_cons. destruct (j =? j'); [intro E; now apply Hb|apply r_big0]. }
     same_obs H'.
 Qed.
 
 (* ---- all histories *)
-(* two runs agree: equal observations where no flag is raised; a field assignment to a
-   group (flag 1) may be observed differently but leaves the states related; from the first
-   use of a stored group (flag 2) on nothing is claimed *)
-Inductive agree : list obs -> list obs -> Prop :=
-| agree_nil : agree [] []
-| agree_same o l1 l2 : oflag o = 0 -> agree l1 l2 -> agree (o :: l1) (o :: l2)
-| agree_field o1 o2 l1 l2 : oflag o1 = 1 -> oflag o2 = 1 -> agree l1 l2 -> agree (o1 :: l1) (o2 :: l2)
-| agree_stored o1 o2 l1 l2 : oflag o1 = 2 -> oflag o2 = 2 -> length l1 = length l2 ->
-                             agree (o1 :: l1) (o2 :: l2).
-
-Lemma run_from_length ops : forall m, length (run_from m ops) = length ops.
+Lemma run_from_refines ops : forall m a, R m a -> run_from m ops = spec_from a ops.
 Proof.
-  induction ops as [|o ops IH]; intro m; cbn; [reflexivity|].
-  destruct (step m o) as [m' ob]. cbn. now rewrite IH.
+  induction ops as [|o ops IH]; intros m a H; cbn [run_from spec_from]; [reflexivity|].
+  destruct (step_sim m a o H) as [He HR].
+  destruct (step m o) as [m' ob]. destruct (spec_step a o) as [a' ob']. cbn [fst snd] in He, HR.
+  subst ob'. f_equal. now apply IH.
 Qed.
 
-Lemma spec_from_length ops : forall a, length (spec_from a ops) = length ops.
-Proof.
-  induction ops as [|o ops IH]; intro a; cbn; [reflexivity|].
-  destruct (spec_step a o) as [a' ob]. cbn. now rewrite IH.
-Qed.
-
-Lemma run_from_agree ops : forall m a, R m a -> agree (run_from m ops) (spec_from a ops).
-Proof.
-  induction ops as [|o ops IH]; intros m a H; cbn [run_from spec_from]; [constructor|].
-  pose proof (step_sim m a o H) as Hs. unfold step_ok in Hs.
-  destruct (step m o) as [m' ob]. destruct (spec_step a o) as [a' ob']. cbn [fst snd] in Hs.
-  destruct Hs as [[Hf [He HR]]|[[Hf [Hf' HR]]|[Hf Hf']]].
-  - subst ob'. apply agree_same; [exact Hf|now apply IH].
-  - apply agree_field; [exact Hf|exact Hf'|now apply IH].
-  - apply agree_stored; [exact Hf|exact Hf'|]. now rewrite run_from_length, spec_from_length.
-Qed.
-
-Theorem run_agrees_with_spec : forall ops, agree (run ops) (spec_run ops).
-Proof. intro ops. apply run_from_agree. exact R_init. Qed.
-
-Lemma agree_unflagged l1 l2 : agree l1 l2 -> Forall (fun o => oflag o = 0) l1 -> l1 = l2.
-Proof.
-  induction 1 as [|o l1 l2 Hf Ha IH|o1 o2 l1 l2 Hf1 Hf2 Ha IH|o1 o2 l1 l2 Hf1 Hf2 Hl]; intro HF.
-  - reflexivity.
-  - inversion HF; subst. f_equal. now apply IH.
-  - inversion HF as [|x y Hx Hy]; subst. rewrite Hf1 in Hx. discriminate.
-  - inversion HF as [|x y Hx Hy]; subst. rewrite Hf1 in Hx. discriminate.
-Qed.
-
-(* the ops that neither assign a field nor touch a stored value *)
-Definition plain_target (t : target) : bool := match t with TName _ => true | TCap _ => false end.
-Definition plain (o : op) : bool :=
-  match o with
-  | OSpawn _ | ORename _ _ | ODestroy _ | OCapture _ _ => true
-  | OQuery t | OSize t | OIndex t _ | OCmd t _ => plain_target t
-  | OField _ => false
-  end.
-
-Lemma plain_step_unflagged m o : plain o = true -> oflag (snd (step m o)) = 0.
-Proof.
-  intro Hp. unfold step. destruct (stuck m); [reflexivity|].
-  destruct o as [n|k n|k|t|t|t i|t c|t|j n]; cbn in Hp; try discriminate;
-    try (destruct t as [n|j]; [|discriminate]; cbn [resolve];
-         destruct (rval_of_list (mem_of (tab m) n)) as [r w] eqn:Er;
-         assert (r <> RDangling) as Hnd
-           by (intro; subst r; destruct (mem_of (tab m) n) as [|x [|y l]]; cbn in Er; discriminate)).
-  - reflexivity.
-  - now destruct (alive_in (objs m) k).
-  - now destruct (alive_in (objs m) k).
-  - destruct r; try contradiction; reflexivity.
-  - destruct r; try contradiction; reflexivity.
-  - destruct r; try contradiction; destruct (q_index _ i); reflexivity.
-  - destruct r as [|k|l|]; try contradiction; try reflexivity.
-    + destruct (apply m k c []). reflexivity.
-    + destruct l as [|x [|y l']]; try reflexivity. destruct (fanout m (x :: y :: l') c []). reflexivity.
-  - destruct (eval_name m n). reflexivity.
-Qed.
-
-Lemma plain_run_unflagged ops : forall m,
-  forallb plain ops = true -> Forall (fun o => oflag o = 0) (run_from m ops).
-Proof.
-  induction ops as [|o ops IH]; intros m Hp; cbn [run_from]; [constructor|].
-  cbn in Hp. apply andb_true_iff in Hp. destruct Hp as [Hp Hps].
-  pose proof (plain_step_unflagged m o Hp) as Hf.
-  destruct (step m o) as [m' ob]. constructor; [exact Hf|now apply IH].
-Qed.
-
-Theorem plain_run_refines_spec : forall ops, forallb plain ops = true -> run ops = spec_run ops.
-Proof.
-  intros ops Hp. apply agree_unflagged; [apply run_agrees_with_spec|].
-  now apply plain_run_unflagged.
-Qed.
-
-Theorem unflagged_run_refines_spec :
-  forall ops, Forall (fun o => oflag o = 0) (run ops) -> run ops = spec_run ops.
-Proof. intros ops Hf. apply agree_unflagged; [apply run_agrees_with_spec|exact Hf]. Qed.
-
-(* ---- the full statement is false of the code *)
-Definition witness_field : list op := [OSpawn 1; OSpawn 1; OField (TName 1)].
-Definition witness_stored_alias : list op :=
-  [OSpawn 1; OSpawn 1; OCapture 1 1; OSpawn 1; OSize (TCap 1)].
-Definition witness_stored_dangling : list op :=
-  [OSpawn 1; OSpawn 1; OCapture 1 1; OCmd (TName 1) (CName 2); OSize (TCap 1)].
-
-Lemma field_witness_differs : run witness_field <> spec_run witness_field.
-Proof. vm_compute. intro H. discriminate H. Qed.
-
-Lemma stored_alias_witness_differs : run witness_stored_alias <> spec_run witness_stored_alias.
-Proof. vm_compute. intro H. discriminate H. Qed.
-
-Lemma stored_dangling_witness_undefined :
-  map oundef (run witness_stored_dangling) = [false; false; false; false; true] /\
-  map oval_ (spec_run witness_stored_dangling) = [ONone; ONone; ONone; ONone; OInt 2].
-Proof. vm_compute. split; reflexivity. Qed.
+Theorem run_refines_spec : forall ops, run ops = spec_run ops.
+Proof. intro ops. apply run_from_refines. exact R_init. Qed.
